@@ -833,6 +833,17 @@ fn cmd_cfgrandom(args: &[String]) {
         // do not exist in the work tree (deleted files, build output not yet produced), with changes under them
         let chain = k % 6 == 2 && !many;
         let ghost = k % 8 == 1 && !many;
+        // family "selfuse" (every ninth): X lists a path inside its own directory (redundant, legal, no edge) and Y lists
+        // the byte-identical string, which IS Y's dependency on X; in every second such case X also reaches Y, so that
+        // the Y -> X edge closes a cycle; X is declared before Y or after it
+        let selfuse = k % 9 == 4 && !many;
+        if selfuse {
+            for d in ["sux", "suy"] {
+                dirs.push(vec![d.to_string()]);
+            }
+            dirs.push(vec!["sux".to_string(), "gen".to_string()]);
+            dirs.push(vec!["suy".to_string(), "api".to_string()]);
+        }
         if chain {
             for d in ["chy", "chm", "chx"] {
                 dirs.push(vec![d.to_string()]);
@@ -870,7 +881,7 @@ fn cmd_cfgrandom(args: &[String]) {
         }
         // targets: a random subset of directories (some nested), occasionally a file
         let nt = rng.gen_range(2..=max_targets.min(dirs.len() - nfan - nmany - (if fan { 1 } else { 0 })).max(2));
-        let mut tdirs: Vec<APath> = dirs.iter().filter(|d| !(d[0].starts_with("fan") || d[0].starts_with("ch") && d[0].len() == 3 || (d[0].starts_with('m') && d[0].len() == 4 && d[0][1..].chars().all(|c| c.is_ascii_digit())))).cloned().collect();
+        let mut tdirs: Vec<APath> = dirs.iter().filter(|d| !(d[0].starts_with("fan") || d[0].starts_with("ch") && d[0].len() == 3 || d[0].starts_with("su") && d[0].len() == 3 || (d[0].starts_with('m') && d[0].len() == 4 && d[0][1..].chars().all(|c| c.is_ascii_digit())))).cloned().collect();
         tdirs.shuffle(&mut rng);
         tdirs.truncate(nt.min(tdirs.len()));
         if rng.gen_bool(0.2) {
@@ -985,6 +996,21 @@ fn cmd_cfgrandom(args: &[String]) {
             ts.push(ATarget { path: vec!["chx".into()], uses: vec![vec!["chm".into()]], ignores: vec![] });
             // exactly two changes: one in Y outside the sub-path M uses, one in X
             changes = vec![vec!["chy".into(), "f.txt".into()], vec!["chx".into(), "f.txt".into()]];
+        }
+        if selfuse {
+            let gen = vec!["sux".to_string(), "gen".to_string()];
+            let api = vec!["suy".to_string(), "api".to_string()];
+            let cyc = (k / 9) % 2 == 0;
+            let x = ATarget { path: vec!["sux".into()], uses: if cyc { vec![gen.clone(), api.clone()] } else { vec![gen.clone()] }, ignores: vec![] };
+            let y = ATarget { path: vec!["suy".into()], uses: vec![gen.clone()], ignores: vec![] };
+            if (k / 18) % 2 == 0 {
+                ts.insert(0, y);
+                ts.insert(0, x);
+            } else {
+                ts.push(y);
+                ts.push(x);
+            }
+            changes.push(vec!["sux".into(), "gen".into(), "f.txt".into()]);
         }
         if ghost {
             let g1 = vec!["ghostdir".to_string(), "dist".to_string()];
